@@ -50,6 +50,12 @@ package main
 //        values, so aliasing is excluded syntactically (checked).
 //   f := func(p T) (r R) { return e }                let f := fun (p : T) => e   (e total, no captures)
 //   break / continue (unlabelled)                    break / continue
+//   switch tag { case c1: A; case c2, c3: B; default: D }
+//                                                    if (tag == c1) then A else if ((tag == c2) || (tag == c3)) then B else D
+//        requires: no init statement; the tag cannot panic; every case operand is a constant of the
+//        tag's type (no local variable occurs in it, it cannot panic), so that neither the order in
+//        which Go compares them nor the number of evaluations matters; the clause bodies contain no
+//        `break` (which would leave the switch, not the loop), `fallthrough` or `goto` (checked)
 //
 // Expressions: identifiers, string / int / char literals, `+ - == != < <= > >= && || !`, unary `-`,
 // parentheses, `len(x)`, `x[i]`, `x[lo:hi]` (lo/hi optional), conversions string(x) / []byte(x)
@@ -63,7 +69,11 @@ package main
 // Package state and opaque calls are made PARAMETERS per function (`funcSpecs`): the package
 // variable isTrimBathBuild -> `trimpath`, the call `baseCaller(3)` (exact text) -> `caller`,
 // `skippedTests.values` -> `skipped`, `regexp.MatchString` -> a function parameter, `colors.NOCOLOR`
-// -> `nocolor`.
+// -> `nocolor`.  The third-party diffmatchpatch stays a parameter too: the exact composition
+// `dmp.DiffCleanupSemantic(dmp.DiffMain(x, y, false))` (dmp = diffmatchpatch.New()) is the call
+// `dmpDiff x y` of a function parameter returning []diffmatchpatch.Diff = List GoIO.DiffChunk (fields
+// Type -> type : Int, Text -> text); the typed constants diffEqual / diffInsert / diffDelete of
+// snaps/diff.go are resolved to the integers they are declared with.
 import (
 	"bytes"
 	"fmt"
@@ -132,6 +142,8 @@ var (
 	tDyn    = &ty{k: "dyn"}     // a value passed as `any` whose dynamic type matters -> GoIO.Dyn
 	tJCfgO  = &ty{k: "jcfgopt"} // *JSONConfig -> Option GoIO.JSONConfig (nil = none)
 	tPOpts  = &ty{k: "popts"}   // *pretty.Options -> GoIO.PrettyOpts
+	tChunk  = &ty{k: "chunk"}   // diffmatchpatch.Diff -> GoIO.DiffChunk
+	tChunks = &ty{k: "chunks"}  // []diffmatchpatch.Diff
 	tBad    = &ty{k: "?"}
 )
 
@@ -160,6 +172,10 @@ func (t *ty) lean() string {
 		return "(Option GoSnaps.GoIO.JSONConfig)"
 	case "popts":
 		return "GoSnaps.GoIO.PrettyOpts"
+	case "chunk":
+		return "GoSnaps.GoIO.DiffChunk"
+	case "chunks":
+		return "List GoSnaps.GoIO.DiffChunk"
 	case "err":
 		return "GoSnaps.GoIO.Err"
 	case "scanner":
@@ -296,6 +312,11 @@ type funcSpec struct {
 	prints  bool             // fx = "rw" functions that call fmt.Println: parameter and result `stdout`
 	fx      string           // "" pure; "ro" reads the file system (parameters io, fs); "rw" also returns the new fs
 	inout   []string         // pointer parameters whose final value is returned (after fs, before the results)
+	// fixed: extra parameter of a callee -> the constant this function passes for it, for a function
+	// that does not carry the parameter itself.  {"nocolor": "false"} declares that the function runs
+	// with colours ON only (singlelineDiff: every call is guarded by shouldPrintHighlights, whose first
+	// conjunct is !colors.NOCOLOR); the colour constants are then the real escape sequences.
+	fixed map[string]string
 }
 
 var funcSpecs = []funcSpec{
@@ -415,6 +436,19 @@ var funcSpecs = []funcSpec{
 		extra:   []param{{"nocolor", tBool}, {"groupedOpCodes", fnOf(tOpGs, tTexts, tTexts, tInt)}, {"singlelineDiffFn", fnOf(nestedPair([]*ty{tText, tInt, tInt}), tText, tText)}},
 		externs: map[string]param{"colors.NOCOLOR": {"nocolor", tBool}},
 		extFns:  map[string]param{"singlelineDiff": {"singlelineDiffFn", fnOf(nestedPair([]*ty{tText, tInt, tInt}), tText, tText)}}},
+	// the inline (single-line) diff: after getUnifiedDiff / prettyDiff, which keep taking it as the
+	// parameter singlelineDiffFn.  diffmatchpatch stays a parameter (dmpDiff); colours are ON (`fixed`)
+	{pkg: "colors", name: "FprintDeleteBold", sig: "w:io.Writer,s:string->", out: "IO", inout: []string{"w"},
+		extra: []param{{"nocolor", tBool}}, externs: map[string]param{"NOCOLOR": {"nocolor", tBool}}},
+	{pkg: "colors", name: "FprintInsertBold", sig: "w:io.Writer,s:string->", out: "IO", inout: []string{"w"},
+		extra: []param{{"nocolor", tBool}}, externs: map[string]param{"NOCOLOR": {"nocolor", tBool}}},
+	{pkg: "colors", name: "FprintBg", sig: "w:io.Writer,bgColor:string,color:string,s:string->", out: "IO", inout: []string{"w"},
+		extra: []param{{"nocolor", tBool}}, externs: map[string]param{"NOCOLOR": {"nocolor", tBool}}},
+	{pkg: "snaps", name: "hasNewLine", sig: "b:[]byte->bool", out: "IO"},
+	{pkg: "snaps", name: "singlelineDiff", sig: "expected:string,received:string->string,int,int", out: "IO",
+		extra:  []param{{"dmpDiff", fnOf(tChunks, tText, tText)}},
+		extFns: map[string]param{"dmp.DiffCleanupSemantic(dmp.DiffMain)": {"dmpDiff", fnOf(tChunks, tText, tText)}},
+		fixed:  map[string]string{"nocolor": "false"}},
 	{pkg: "snaps", name: "baseCaller", sig: "skip:int->string", out: "IO",
 		extra: []param{{"fuel", &ty{k: "nat"}}, {"frames", &ty{k: "frames"}}},
 		extFns: map[string]param{"runtime.Caller": {"(GoSnaps.GoIO.runtimeCaller frames)", fnOf(nestedPair([]*ty{tInt, tText, tInt, tBool}), tInt)},
@@ -835,6 +869,10 @@ func (t *ftr) exprH(e ast.Expr, hint *ty) ex {
 			if bl, ok := v.(*ast.BasicLit); ok && bl.Kind == token.INT {
 				return t.exprH(bl, hint)
 			}
+			// a negative integer constant, possibly typed (diffDelete diffmatchpatch.Operation = -1)
+			if n, ok := t.pkg.constNegInt(e.Name); ok && (hint == nil || hint.k == "int") {
+				return ex{fmt.Sprintf("(%d : Int)", n), tInt, false}
+			}
 			// a string constant of a package other than snaps (no Generated.go_<name> for those)
 			if t.sp.pkg != "snaps" {
 				if str, ok := t.pkg.constString(v); ok {
@@ -894,6 +932,24 @@ func (t *ftr) exprH(e ast.Expr, hint *ty) ex {
 					return ex{t.ln(id.Name) + "." + e.Sel.Name, tText, false}
 				case "update":
 					return ex{t.ln(id.Name) + ".update", tOptB, false}
+				}
+			}
+		}
+		// a field of a diffmatchpatch.Diff value: a local variable or an element `diffs[i]`
+		if f := map[string]string{"Type": "type", "Text": "text"}[e.Sel.Name]; f != "" {
+			_, isIdx := e.X.(*ast.IndexExpr)
+			id, isId := e.X.(*ast.Ident)
+			if isIdx || (isId && t.lookup(id.Name) != nil && t.lookup(id.Name).k == "chunk") {
+				x := t.expr(e.X)
+				if t.err != nil {
+					return ex{"sorry", tBad, false}
+				}
+				if x.t.k == "chunk" {
+					ft := tInt
+					if f == "text" {
+						ft = tText
+					}
+					return ex{x.s + "." + f, ft, x.p}
 				}
 			}
 		}
@@ -1005,6 +1061,8 @@ func (t *ftr) exprH(e ast.Expr, hint *ty) ex {
 			et = tOp
 		case "texts":
 			et = tText
+		case "chunks":
+			et = tChunk
 		default:
 			return t.fail("indexing a value of type %s", x.t.lean())
 		}
@@ -1179,6 +1237,35 @@ func (t *ftr) call(e *ast.CallExpr) ex {
 	if p, ok := t.sp.externs[t.src(e)]; ok {
 		return ex{p.name, p.t, false}
 	}
+	// dmp.DiffCleanupSemantic(dmp.DiffMain(x, y, false)) with dmp = diffmatchpatch.New(): this exact
+	// composition is the function parameter declared for it (the library is not modelled)
+	if selName(e.Fun) == "dmp.DiffCleanupSemantic" || selName(e.Fun) == "dmp.DiffMain" {
+		p, ok := t.sp.extFns["dmp.DiffCleanupSemantic(dmp.DiffMain)"]
+		if !ok {
+			return t.fail("%s: the function has no parameter for diffmatchpatch", selName(e.Fun))
+		}
+		nw, isNew := t.pkg.values["dmp"].(*ast.CallExpr)
+		if t.lookup("dmp") != nil || !isNew || selName(nw.Fun) != "diffmatchpatch.New" || len(nw.Args) != 0 || t.pkg.isConst["dmp"] {
+			return t.fail("dmp is not the package variable initialised by diffmatchpatch.New()")
+		}
+		var inner *ast.CallExpr
+		if selName(e.Fun) == "dmp.DiffCleanupSemantic" && len(e.Args) == 1 {
+			inner, _ = e.Args[0].(*ast.CallExpr)
+		}
+		if inner == nil || selName(inner.Fun) != "dmp.DiffMain" || len(inner.Args) != 3 || inner.Ellipsis != token.NoPos {
+			return t.fail("diffmatchpatch is called other than by dmp.DiffCleanupSemantic(dmp.DiffMain(x, y, false)): %s", t.src(e))
+		}
+		if cl, ok := inner.Args[2].(*ast.Ident); !ok || cl.Name != "false" || t.lookup("false") != nil {
+			return t.fail("dmp.DiffMain: the checklines argument must be the literal false: %s", t.src(inner))
+		}
+		two := *inner
+		two.Args = inner.Args[:2]
+		a, pp, ok := t.args("dmp.DiffMain", &two, p.t.params)
+		if !ok {
+			return ex{"sorry", tBad, false}
+		}
+		return ex{"(" + p.name + " " + strings.Join(a, " ") + ")", p.t.res, pp}
+	}
 	// conversions between string and []byte: identity on List UInt8
 	if at, ok := e.Fun.(*ast.ArrayType); ok {
 		if ty := goType(at); ty != nil && ty.k == "text" && len(e.Args) == 1 {
@@ -1224,7 +1311,7 @@ func (t *ftr) call(e *ast.CallExpr) ex {
 			if len(e.Args) == 1 {
 				x := t.expr(e.Args[0])
 				switch x.t.k {
-				case "text", "texts", "merrs", "matchers", "map1", "map2", "smap", "set", "bools", "opcodes", "opgroups":
+				case "text", "texts", "merrs", "matchers", "map1", "map2", "smap", "set", "bools", "opcodes", "opgroups", "chunks":
 					// (a Go map holds each key once, as the association lists built by map*Set do)
 				default:
 					return t.fail("len of %s", x.t.lean())
@@ -1241,6 +1328,10 @@ func (t *ftr) call(e *ast.CallExpr) ex {
 					if mine.name == xp.name && mine.t.lean() == xp.t.lean() {
 						found = true
 					}
+				}
+				if c, isFixed := t.sp.fixed[xp.name]; !found && isFixed {
+					lead = append(lead, c)
+					continue
 				}
 				if !found {
 					return t.fail("call of %s needs parameter %s, which %s does not have", id.Name, xp.name, t.sp.name)
@@ -1669,6 +1760,11 @@ func (t *ftr) assign(b *strings.Builder, ind string, s *ast.AssignStmt) {
 		} else if cl, ok := s.Rhs[0].(*ast.CompositeLit); ok && t.isBuilderType(cl.Type) && len(cl.Elts) == 0 {
 			x = ex{"([] : List UInt8)", tText, false}
 			t.builder[name] = true
+		} else if t.isNewBuilder(s.Rhs[0]) {
+			// a := &bytes.Buffer{}: a pointer to a fresh buffer, modelled by the buffer's content; the
+			// pointer is never copied (checkPtrBuilders), so there is exactly one name for the buffer
+			x = ex{"([] : List UInt8)", tText, false}
+			t.builder[name] = true
 		} else {
 			x = t.expr(s.Rhs[0])
 		}
@@ -1881,6 +1977,8 @@ func (t *ftr) block0(list []ast.Stmt, ind string, res *ty) string {
 			b.WriteString(t.rangeStmt(s, ind, res))
 		case *ast.TypeSwitchStmt:
 			b.WriteString(t.typeSwitch(s, ind, res))
+		case *ast.SwitchStmt:
+			b.WriteString(t.switchStmt(s, ind, res))
 		case *ast.BranchStmt:
 			if s.Label != nil || (s.Tok != token.BREAK && s.Tok != token.CONTINUE) {
 				t.stmtFail(&b, ind, "unsupported statement %s", t.src(s))
@@ -1892,6 +1990,181 @@ func (t *ftr) block0(list []ast.Stmt, ind string, res *ty) string {
 		}
 	}
 	return b.String()
+}
+
+// switchStmt: `switch tag { case c1: A; case c2, c3: B; default: D }` -> an if-chain (see the header
+// comment for the side conditions; anything else is refused)
+func (t *ftr) switchStmt(s *ast.SwitchStmt, ind string, res *ty) string {
+	var b strings.Builder
+	if s.Init != nil || s.Tag == nil {
+		t.stmtFail(&b, ind, "switch with an init statement or without a tag")
+		return b.String()
+	}
+	bad := ""
+	ast.Inspect(s.Body, func(n ast.Node) bool {
+		if br, ok := n.(*ast.BranchStmt); ok && (br.Tok != token.CONTINUE || br.Label != nil) {
+			bad = t.src(br)
+		}
+		return true
+	})
+	if bad != "" {
+		t.stmtFail(&b, ind, "`%s` inside a switch", bad)
+		return b.String()
+	}
+	tag := t.expr(s.Tag)
+	if t.err != nil {
+		b.WriteString(ind + "sorry\n")
+		return b.String()
+	}
+	if tag.p {
+		t.stmtFail(&b, ind, "the switch tag %s can panic", t.src(s.Tag))
+		return b.String()
+	}
+	switch tag.t.k {
+	case "int", "text", "byte", "bool":
+	default:
+		t.stmtFail(&b, ind, "switch over a value of type %s", tag.t.lean())
+		return b.String()
+	}
+	type clause struct {
+		cond string
+		body []ast.Stmt
+	}
+	var cases []clause
+	var deflt *ast.CaseClause
+	for _, c := range s.Body.List {
+		cc, ok := c.(*ast.CaseClause)
+		if !ok {
+			t.stmtFail(&b, ind, "unsupported switch clause")
+			return b.String()
+		}
+		if cc.List == nil {
+			if deflt != nil {
+				t.stmtFail(&b, ind, "switch with two default clauses")
+				return b.String()
+			}
+			deflt = cc
+			continue
+		}
+		var conds []string
+		for _, ce := range cc.List {
+			for n := range identsIn(ce) {
+				if t.lookup(n) != nil {
+					t.stmtFail(&b, ind, "the case operand %s is not a constant (it mentions the variable %s)", t.src(ce), n)
+					return b.String()
+				}
+			}
+			if _, isCall := ce.(*ast.CallExpr); isCall {
+				t.stmtFail(&b, ind, "the case operand %s is not a constant", t.src(ce))
+				return b.String()
+			}
+			x := t.exprH(ce, tag.t)
+			if t.err != nil {
+				b.WriteString(ind + "sorry\n")
+				return b.String()
+			}
+			if !x.t.eq(tag.t) || x.p {
+				t.stmtFail(&b, ind, "the case operand %s has type %s (tag: %s) or can panic", t.src(ce), x.t.lean(), tag.t.lean())
+				return b.String()
+			}
+			conds = append(conds, "("+tag.s+" == "+x.s+")")
+		}
+		cond := conds[0]
+		if len(conds) > 1 {
+			cond = "(" + strings.Join(conds, " || ") + ")"
+		}
+		cases = append(cases, clause{cond, cc.Body})
+	}
+	if len(cases) == 0 {
+		t.stmtFail(&b, ind, "switch without case clauses")
+		return b.String()
+	}
+	var emit func(i int, ind string)
+	emit = func(i int, ind string) {
+		fmt.Fprintf(&b, "%sif %s then\n%s", ind, cases[i].cond, t.block(cases[i].body, ind+"  ", res))
+		switch {
+		case i+1 < len(cases):
+			fmt.Fprintf(&b, "%selse\n", ind)
+			emit(i+1, ind+"  ")
+		case deflt != nil:
+			fmt.Fprintf(&b, "%selse\n%s", ind, t.block(deflt.Body, ind+"  ", res))
+		}
+	}
+	emit(0, ind)
+	return b.String()
+}
+
+// isNewBuilder: &bytes.Buffer{} / &strings.Builder{}
+func (t *ftr) isNewBuilder(e ast.Expr) bool {
+	u, ok := e.(*ast.UnaryExpr)
+	if !ok || u.Op != token.AND {
+		return false
+	}
+	cl, ok := u.X.(*ast.CompositeLit)
+	return ok && t.isBuilderType(cl.Type) && len(cl.Elts) == 0
+}
+
+// checkPtrBuilders: a local `a := &bytes.Buffer{}` is a POINTER; it is modelled by the content of the
+// buffer it points to, which is only right while `a` is the only name of that buffer.  Every
+// occurrence of such a variable must therefore be (i) its definition, (ii) the receiver of a method
+// call `a.M(…)`, or (iii) an argument of a translated function in the position of an in-out writer
+// parameter.  Anything else (y := a, a = b, f(a) with an unknown f, return a, …) is refused.
+func (t *ftr) checkPtrBuilders(fd *ast.FuncDecl) {
+	names := map[string]bool{}
+	allowed := map[*ast.Ident]bool{}
+	ast.Inspect(fd.Body, func(n ast.Node) bool {
+		if as, ok := n.(*ast.AssignStmt); ok && as.Tok == token.DEFINE && len(as.Lhs) == 1 && len(as.Rhs) == 1 && t.isNewBuilder(as.Rhs[0]) {
+			if id, ok := as.Lhs[0].(*ast.Ident); ok && id.Name != "_" {
+				if names[id.Name] {
+					t.fail("the buffer pointer %s is defined twice", id.Name)
+				}
+				names[id.Name] = true
+				allowed[id] = true
+			}
+		}
+		return true
+	})
+	if len(names) == 0 {
+		return
+	}
+	ast.Inspect(fd.Body, func(n ast.Node) bool {
+		c, ok := n.(*ast.CallExpr)
+		if !ok {
+			return true
+		}
+		if sel, ok := c.Fun.(*ast.SelectorExpr); ok {
+			if id, ok := sel.X.(*ast.Ident); ok && names[id.Name] {
+				allowed[id] = true
+			}
+		}
+		var d *doneFn
+		if id, ok := c.Fun.(*ast.Ident); ok {
+			d = t.funcs[t.sp.pkg+"."+id.Name]
+		} else if dd, _, ok := t.crossPkg(c.Fun); ok {
+			d = dd
+		}
+		if d == nil || d.spec.recv != "" {
+			return true
+		}
+		for i, a := range c.Args {
+			id, ok := a.(*ast.Ident)
+			if !ok || !names[id.Name] || i >= len(d.pnames) {
+				continue
+			}
+			for _, io := range d.spec.inout {
+				if io == d.pnames[i] {
+					allowed[id] = true
+				}
+			}
+		}
+		return true
+	})
+	ast.Inspect(fd.Body, func(n ast.Node) bool {
+		if id, ok := n.(*ast.Ident); ok && names[id.Name] && !allowed[id] {
+			t.fail("the buffer pointer %s is used other than as a method receiver or as the writer argument of a translated function (aliasing is not modelled)", id.Name)
+		}
+		return true
+	})
 }
 
 // typeSwitch: `switch j := x.(type) { case string: …; case []byte: …; default: … }` over a parameter of type
@@ -2250,12 +2523,12 @@ func (t *ftr) rangeStmt(s *ast.RangeStmt, ind string, res *ty) string {
 		t.pop()
 		return b.String()
 	}
-	if xs.t.k != "texts" && xs.t.k != "merrs" && xs.t.k != "matchers" && xs.t.k != "dirents" && xs.t.k != "godecls" && xs.t.k != "cfgopts" && xs.t.k != "opcodes" && xs.t.k != "opgroups" {
+	if xs.t.k != "texts" && xs.t.k != "merrs" && xs.t.k != "matchers" && xs.t.k != "dirents" && xs.t.k != "godecls" && xs.t.k != "cfgopts" && xs.t.k != "opcodes" && xs.t.k != "opgroups" && xs.t.k != "chunks" {
 		t.stmtFail(&b, ind, "range over %s (only []string is supported; a string ranges over runes)", xs.t.lean())
 		return b.String()
 	}
 	elemT := map[string]*ty{"texts": tText, "merrs": tMErr, "matchers": tMatch, "dirents": tDirE, "godecls": tDecl,
-		"cfgopts": {k: "func", params: []*ty{tCfg}, res: tCfg}, "opcodes": tOp, "opgroups": tOps}[xs.t.k]
+		"cfgopts": {k: "func", params: []*ty{tCfg}, res: tCfg}, "opcodes": tOp, "opgroups": tOps, "chunks": tChunk}[xs.t.k]
 	whole, indexed := assignedIn(s.Body)
 	if whole["?"] || (k != "_" && whole[k]) {
 		t.stmtFail(&b, ind, "the loop body assigns the range index")
@@ -2641,6 +2914,7 @@ func translateFunc(pkg *pkgInfo, sp *funcSpec, consts map[string]bool, funcs map
 		}
 	}
 	t.checkAliasing(fd, pnames)
+	t.checkPtrBuilders(fd)
 	n := len(fd.Body.List)
 	if n == 0 {
 		ffail("funcs: %s has an empty body", sp.name)
